@@ -366,6 +366,13 @@ func (t *Table) SetWriteFault(kind string, meanwhile func()) {
 	t.mu.Unlock()
 }
 
+// Stored returns the number of items in the table.
+func (t *Table) Stored() int {
+	t.mu.Lock()
+	defer t.mu.Unlock()
+	return len(t.items)
+}
+
 // SetFail arms read and write failures.
 func (t *Table) SetFail(reads, writes int) {
 	t.mu.Lock()
